@@ -158,7 +158,7 @@ def _common_axis(axes, join):
 
     # special cases
     # do not include None unless we have a singleton
-    if ax0[0] is None:
+    if len(ax0) > 0 and ax0[0] is None:
         return ax1
     if len(ax1) == 1 and ax1[0] is None:
         return ax0
